@@ -126,12 +126,12 @@ class MessagePackDocument(HierDictDocument):
     def _ret_number(self, _, value):
         if isinstance(value, NON_NUMBER_TYPES):
             raise ValidationError(value)
-        if value in (True, False):
+        if isinstance(value, bool):
             return int(value)
         return value
 
     def _ret_bool(self, _, value):
-        if value is None or value in (True, False):
+        if value is None or isinstance(value, bool):
             return value
         raise ValidationError(value)
 
